@@ -156,6 +156,8 @@ def expr_text(e, cells):
         return f'COUNT_PASS({expr_text(e[1], cells)})'
     if k == 'H':
         return f'HANDOVER({expr_text(e[1], cells)})'
+    if k == 'X':        # a call of a function that does not exist: evaluating the cell raises (oracle-only cases)
+        return f'NOSUCHFN6({expr_text(e[1], cells)})'
     raise ValueError(k)
 
 
@@ -287,6 +289,11 @@ def impl(case):
         except _Timeout:
             return (f'!timeout: evaluate({",".join(addrs)}, {kw}) did not return within {_WATCHDOG_S[0]} s '
                     f'({_COUNT[0]} passes counted so far)')
+        except Exception as exc:   # noqa
+            if not op.get('fails'):
+                raise
+            out.append('raised:' + type(exc).__name__ + '/0')
+            continue
         if len(addrs) == 1:
             res = (res,)
         n = _COUNT[0] if op.get('cnt') is not None else 0
@@ -851,6 +858,18 @@ def reent_cases(rng, extra):
                          {'a': 'A5', 'f': ['+', ['r', 2], ['r', 3]], 'v': z(0)}]
                 yield {'fam': 'reent', 'cells': cells, 'mode': mode, 'cfg': cfg, 'oracle_only': True,
                        'ops': [_ev([4], 5, None, 2), _set(0, 4), _ev([3, 4], 3, None, 2)]}
+    # (g) oracle-only: an evaluate with its OWN iterations/tolerance fails (unknown function) part-way; later calls
+    #     without overrides must run under the model's settings again (pass bound through the plugin count)
+    for mode in ('nodata', 'stored'):
+        z = (lambda v: 'z') if mode == 'nodata' else (lambda v: tok_of(v))
+        for how in ('dict', 'wb'):
+            cells = [{'a': 'A1', 'f': ['P', ['+', ['r', 0], ['n', 'n:1/1']]], 'v': z(0)},
+                     {'a': 'B1', 'f': ['+', ['X', ['r', 0]], ['n', 'n:1/1']], 'v': z(0)}]
+            for big in (40, 7):
+                yield {'fam': 'reent', 'cells': cells, 'mode': mode, 'cfg': _cfg(how, 5, 'n:1/2'), 'oracle_only': True,
+                       'ops': [_ev([0], None, None, 0), dict(_ev([1], big, 'n:1/1024'), fails=True),
+                               _ev([0], 1, None, 0), _ev([0], None, None, 0),
+                               dict(_ev([1, 0], big, None), fails=True), _ev([0], None, None, 0)]}
     # (f) another thread evaluates an unrelated iterative workbook in the middle of every pass (HANDOVER plugin)
     for mode in ('nodata', 'stored'):
         z = (lambda v: 'z') if mode == 'nodata' else (lambda v: tok_of(v))
